@@ -474,7 +474,15 @@ def gen_workflow(rng: random.Random, lang: Lang, napps: int):
                 if rng.random() < 0.6 and not isinstance(t, tuple):
                     ann = rng.choice(L.anc(t)) if rng.random() < 0.9 else rng.choice(names)
                 res_type[out] = t
-                apps.append({"out": out, "term": ("in", 0, ann), "ins": [r]})
+                ins = [r]
+                others = [q for q in res_type if q != r and q != out]
+                if others and rng.random() < 0.35:
+                    # a further declared input that the expression does not mention
+                    q = rng.choice(others)
+                    ins.append(q)
+                    if not q.startswith("s"):
+                        consumed.add(q)
+                apps.append({"out": out, "term": ("in", 0, ann), "ins": ins})
             continue
         best = None
         for attempt in range(10):
@@ -531,6 +539,11 @@ def gen_workflow(rng: random.Random, lang: Lang, napps: int):
             return ("in", k, w)
         term = map_leaves(term, annot)
         out = f"t{j}"
+        if rng.random() < 0.06 and res_type:
+            q = rng.choice(list(res_type))         # declared, not mentioned by the expression
+            ins.append(q)
+            if not q.startswith("s"):
+                consumed.add(q)
         res_type[out] = ty
         apps.append({"out": out, "term": term, "ins": ins})
     if rng.random() < 0.94:
@@ -1056,6 +1069,11 @@ def spec_obs(lang: Lang, wf, passthrough: bool) -> Obs:
         n = go(a, a["term"], ())
         if a["term"][0] == "in":
             resnode[a["out"]] = n
+        if not passthrough:
+            # each input fed by a tool is its own source node, mentioned by the expression or not
+            for k, q in enumerate(a["ins"]):
+                if q in prod:
+                    o.edges.add((("I", a["out"], k), "from", node_of(q)))
     nodes = {node_of(r) for r in wf["sources"]} | {node_of(a["out"]) for a in wf["apps"]}
     for s, _, t in o.edges:
         nodes |= {s, t}
@@ -1296,7 +1314,7 @@ def isolated_input_types(lang: Lang, wf):
         e = lang.language.parse_expr(term_text(lang, a["term"]), *ins)
         e.fix()
         for k, q in enumerate(a["ins"]):
-            if q in prod and k in used:
+            if q in prod:        # mentioned by the expression or not (then the type stays open)
                 out.append(norm_vars(f"{ins[k].type} from source"))
     return Counter(out)
 
